@@ -32,7 +32,7 @@ func (e *MemberExpression) Exec(ctx context.Context, scope *core.Scope) (core.Va
 	member, err := e.source.Exec(ctx, scope)
 
 	if err != nil {
-		if e.path[0].optional {
+		if e.path[0].optional && !core.IsTerminated(err) {
 			return values.None, nil
 		}
 
